@@ -3,6 +3,8 @@ From Coq Require Import ZArith List Bool PArith FMapPositive Lia.
 Import ListNotations.
 Require Import MV.Lib.Base MV.C06.Base MV.C06.Gen MV.C06.Model.
 
+Local Arguments alloc1 : simpl never.
+
 Section Heap.
 Context {T : Type} (O : ops T).
 Notation vec := (vec T).
@@ -38,7 +40,7 @@ Lemma Forall_allocated_mono m m' cs : frame m m' -> Forall (allocated m) cs -> F
 Proof. intros H. apply Forall_impl. intros a. now apply allocated_mono. Qed.
 
 Lemma alloc1_spec m v m' c :
-  alloc1 O m v = (m', c) ->
+  alloc1 m v = (m', c) ->
   c = mnext m /\ mnext m' = Pos.succ (mnext m) /\ rd (mheap m') c = v /\ frame m m'.
 Proof.
   unfold alloc1. intros E. inversion E; subst; clear E. simpl. repeat split.
@@ -56,12 +58,12 @@ Lemma fresh_block_allocated m m' cs : fresh_block m m' cs -> Forall (allocated m
 Proof. intros [_ H]. eapply Forall_impl; [|exact H]. unfold allocated. simpl. intros; lia. Qed.
 
 Lemma allocs_spec vs : forall m m' cs,
-  allocs O m vs = (m', cs) ->
+  allocs m vs = (m', cs) ->
   fresh_block m m' cs /\ frame m m' /\ map (rd (mheap m')) cs = vs.
 Proof.
-  induction vs as [|v t IH]; intros m m' cs E; simpl in E.
+  induction vs as [|v t IH]; intros m m' cs E; cbn [allocs] in E.
   - inversion E; subst. repeat split; try constructor; try lia; auto.
-  - destruct (alloc1 O m v) as [m1 c] eqn:E1. destruct (allocs O m1 t) as [m2 r] eqn:E2.
+  - destruct (alloc1 m v) as [m1 c] eqn:E1. destruct (allocs m1 t) as [m2 r] eqn:E2.
     inversion E; subst; clear E.
     apply alloc1_spec in E1 as (Hc & Hn & Hv & Hf1).
     apply IH in E2 as ([Hnd Hrange] & Hf2 & Hmap).
@@ -111,9 +113,9 @@ Lemma rebind_spec f cs : forall m m' cs',
   rebind O f m cs = (m', cs') -> Forall (allocated m) cs ->
   fresh_block m m' cs' /\ frame m m' /\ map (rd (mheap m')) cs' = map f (map (rd (mheap m)) cs).
 Proof.
-  induction cs as [|a t IH]; intros m m' cs' E Hal; simpl in E.
+  induction cs as [|a t IH]; intros m m' cs' E Hal; cbn [rebind] in E.
   - inversion E; subst. repeat split; try constructor; try lia; auto.
-  - destruct (alloc1 O m (f (rd (mheap m) a))) as [m1 c] eqn:E1. destruct (rebind O f m1 t) as [m2 r] eqn:E2.
+  - destruct (alloc1 m (f (rd (mheap m) a))) as [m1 c] eqn:E1. destruct (rebind O f m1 t) as [m2 r] eqn:E2.
     inversion E; subst; clear E. inversion Hal as [|? ? Ha Ht]; subst.
     apply alloc1_spec in E1 as (Hc & Hn & Hv & Hf1).
     apply IH in E2 as ([Hnd Hrange] & Hf2 & Hmap); [|now apply Forall_allocated_mono with (m := m)].
